@@ -461,11 +461,11 @@ pub fn basic_op(max: u32, encrypt: bool) -> BoxedStrategy<Op> {
     .boxed()
 }
 
-pub fn extra_op(max: u32) -> BoxedStrategy<Op> {
+pub fn extra_op(max: u32, encrypt: bool) -> BoxedStrategy<Op> {
     prop_oneof![
-        3 => (name(), opts(false), proptest::collection::vec(good_extra(40), 0..3), prop_oneof![Just(None), proptest::collection::vec(good_extra(40), 0..3).prop_map(Some)], chunks(max))
+        3 => (name(), opts(encrypt), proptest::collection::vec(good_extra(40), 0..3), prop_oneof![Just(None), proptest::collection::vec(good_extra(40), 0..3).prop_map(Some)], chunks(max))
             .prop_map(|(name, opts, local, central, chunks)| Op::ExtraFile { name, opts, local, central, chunks }),
-        3 => (name(), opts(false), prop_oneof![Just(0u16), Just(1), Just(2), Just(4), Just(64), Just(512), Just(4096), Just(32768), 0u16..300, any::<u16>()], chunks(max))
+        3 => (name(), opts(encrypt), prop_oneof![Just(0u16), Just(1), Just(2), Just(4), Just(64), Just(512), Just(4096), Just(32768), 0u16..300, any::<u16>()], chunks(max))
             .prop_map(|(name, opts, align, chunks)| Op::Aligned { name, opts, align, chunks }),
     ]
     .boxed()
@@ -474,7 +474,7 @@ pub fn extra_op(max: u32) -> BoxedStrategy<Op> {
 /// A legal program with duplicates injected (a later name repeats an earlier one).
 pub fn program(max_entries: usize, max_content: u32, with_extra: bool, encrypt: bool) -> BoxedStrategy<Program> {
     let op = if with_extra {
-        prop_oneof![4 => basic_op(max_content, encrypt), 1 => extra_op(max_content)].boxed()
+        prop_oneof![4 => basic_op(max_content, encrypt), 1 => extra_op(max_content, encrypt)].boxed()
     } else {
         basic_op(max_content, encrypt)
     };
